@@ -204,6 +204,11 @@ type World struct {
 	syncNo  int      // number of Syncs issued so far (the one in progress has number syncNo-1)
 	Pickers []clusters.EndpointPicker
 	Timeout time.Duration
+	// HealthFn, when set, is the real probe (controllers.GatewayHealthCheck) run instead of reporting the scripted health directly
+	HealthFn clusters.EndpointHealthCheck
+	// Inconclusive is set when a real probe did not report what the stub was scripted to answer (a timeout under load):
+	// the history then proves nothing either way and is dropped.
+	Inconclusive bool
 }
 
 func NewWorld() *World {
@@ -233,7 +238,14 @@ func (w *World) healthCheck(e *clusters.EndpointInfo) bool {
 		w.Viol = append(w.Viol, fmt.Sprintf("health probe sent to %s while it is marked disabled", e.Endpoint))
 	}
 	w.mu.Unlock()
-	if h {
+	if w.HealthFn != nil {
+		w.HealthFn(e)
+		if clusters.VerifEndpointStatus(e).Healthy != h {
+			w.mu.Lock()
+			w.Inconclusive = true
+			w.mu.Unlock()
+		}
+	} else if h {
 		e.UpdateStatus(true, "", "")
 	} else {
 		e.UpdateStatus(false, "NotReady", "scripted")
@@ -330,6 +342,9 @@ func (w *World) EnabledInSpec() int {
 	return n
 }
 
+// Ident is the (name, generation) identity of an endpoint object.
+func (w *World) Ident(e *clusters.EndpointInfo) Ident { return w.ident(e) }
+
 func (w *World) ident(e *clusters.EndpointInfo) Ident {
 	w.mu.Lock()
 	defer w.mu.Unlock()
@@ -393,6 +408,75 @@ func (w *World) probesOf() map[Ident]int {
 	return res
 }
 
+// workerCountUsable says whether HealthGoroutines recognises the health-check goroutines of this build (CalibrateWorkers).
+var workerCountUsable = true
+
+// CalibrateWorkers starts one real health-checked endpoint and verifies that HealthGoroutines sees exactly its ticker and
+// worker goroutines, and none after Stop. If the runtime names the closures differently the worker-count observation is
+// switched off (and reported) instead of producing verdicts.
+func CalibrateWorkers() bool {
+	if !WaitNoHealthGoroutines(5 * time.Second) {
+		workerCountUsable = false
+		return false
+	}
+	w := NewWorld()
+	ep := rig.Hex("http://127.0.0.1:19999")
+	w.SetUp([]UpEnt{{N: ep, H: true}})
+	if err := w.Sync([]Server{{Ep: ep}}, [][]string{{}}); err != nil {
+		workerCountUsable = false
+		return false
+	}
+	deadline := time.Now().Add(5 * time.Second)
+	ok := false
+	for time.Now().Before(deadline) {
+		if t, wk := HealthGoroutines(); t == 1 && wk == 1 {
+			ok = true
+			break
+		}
+		time.Sleep(100 * time.Microsecond)
+	}
+	w.Stop()
+	if ok {
+		ok = WaitNoHealthGoroutines(5 * time.Second)
+	}
+	workerCountUsable = ok
+	return ok
+}
+
+// CheckRealConstructor runs the exported clusters.CreateClusterInfo (production interval) on a spec and compares the
+// endpoint set and disabled flags it produces with the spec; the histories themselves use the shim constructor, which is
+// the same code with a one-hour ticker.
+func CheckRealConstructor(servers []Server, policies [][]string) error {
+	uc := ClusterOf(servers, policies)
+	ci, err := clusters.CreateClusterInfo(uc, func(*clusters.EndpointInfo) bool { return false }, "", nil)
+	if err != nil {
+		return fmt.Errorf("CreateClusterInfo: %v", err)
+	}
+	defer ci.Stop()
+	want := map[string]bool{}
+	for _, s := range uc.Spec.Servers {
+		want[s.Endpoint] = want[s.Endpoint] || (s.Disabled != nil && *s.Disabled)
+	}
+	got := ci.AllEndpoints()
+	if len(got) != len(want) {
+		return fmt.Errorf("CreateClusterInfo: endpoints %v for servers %v", got, want)
+	}
+	for _, n := range got {
+		dis, ok := want[n]
+		e, _ := ci.Endpoints.Load(n)
+		if !ok || e == nil || e.IstDisabled() != dis {
+			return fmt.Errorf("CreateClusterInfo: endpoint %s present=%v disabled differs from the spec (%v)", n, ok, dis)
+		}
+	}
+	return nil
+}
+
+func (w *World) IsInconclusive() bool {
+	w.mu.Lock()
+	defer w.mu.Unlock()
+	return w.Inconclusive
+}
+
 // Quiesce waits until every endpoint object has been probed exactly as often as `want` says (objects not named must
 // stay at their count) and, if workers >= 0, until exactly that many health-check worker goroutines are alive.
 // It returns "" or what did not settle within the timeout.
@@ -410,7 +494,7 @@ func (w *World) Quiesce(want map[Ident]int, workers int) string {
 				}
 			}
 		}
-		if bad == "" && workers >= 0 {
+		if bad == "" && workers >= 0 && workerCountUsable {
 			_, live := HealthGoroutines()
 			if live != workers {
 				bad = fmt.Sprintf("workers: %d health-check worker goroutines alive, expected %d", live, workers)
